@@ -15,12 +15,13 @@ def case_line(fn, mode, inp, outlen, inlen=None, cursor=-2, presence=0, typeform
 
 class Result:
     __slots__ = ("raw", "crash", "ret", "inlen", "outlen", "cursor", "out", "inputPos", "outputPos", "typeform",
-                 "spacing", "rules", "ticks", "rawmap", "errors", "hang")
+                 "spacing", "rules", "ticks", "rawmap", "errors", "hang", "opens")
 
     def __init__(self, line):
         self.raw = line
         self.crash = None
         self.hang = None
+        self.opens = 0
         if isinstance(line, tuple):
             self.crash = line
             return
@@ -41,6 +42,7 @@ class Result:
             self.rawmap = (d, il, ol, [int(x) for x in tl.split()])
         tail = parts[9].split()
         self.errors = int(tail[0].split("=")[1])
+        self.opens = int(tail[1].split("=")[1]) if len(tail) > 1 and tail[1].startswith("opens=") else 0
         if "HANG" in tail:
             self.hang = int(tail[tail.index("HANG") + 1])
 
